@@ -66,6 +66,14 @@ class ClientEnd:
         """Full close: FIN now, and anything that arrives later is answered by RST."""
         if self.closed:
             return
+        if self.pending:
+            # closing with unread data: the client's kernel resets the connection at once
+            srv = self.conn.server
+            srv._unacked -= len(self.pending)
+            self.pending.clear()
+            self.reading = True
+            self.rst(latency)
+            return
         if not self.fin_sent:
             self.fin(latency)
         self.closed = True
